@@ -3,7 +3,7 @@ brute-force property oracle (Python, independent of the model) on the implementa
 import itertools
 
 from .. import gen
-from ..common import cnat, cbool, clist, copt, coq_eval
+from ..common import cnat, cbool, clist, copt, coq_eval, CoqEvalError
 from ..impl import Impl
 
 IMPORTS = ['Base.Util', 'Model.Bfs', 'Model.Structure', 'Model.Cycles', 'Gen.CyclesCode']
@@ -426,10 +426,18 @@ def run(ctx, scratch):
              'bip': lambda v: conv(v, conv_bip), 'acyc': conv, 'cyc': lambda v: conv(v, lambda l: [list(x) for x in l]),
              'break': lambda v: conv(v, edges_of_rows)}
     model = [None] * len(cases)
+    model_dead = set()
     for k in exprs:
         if not exprs[k]:
             continue
-        vals = coq_eval('c12' + k, IMPORTS, exprs[k], prelude=PRELUDE, shard=300, timeout=1500)
+        try:
+            vals = coq_eval('c12' + k, IMPORTS, exprs[k], prelude=PRELUDE, shard=300, timeout=1500)
+        except CoqEvalError as exc:
+            # the model (or a generated term it uses) no longer evaluates: the correspondence is broken, but the
+            # property oracles below still search the implementation's outputs for a concrete failing input
+            ctx.proof_broken.append('model evaluation failed for %s: %s' % (k, str(exc)[-400:]))
+            model_dead.add(k)
+            continue
         for i, v in zip(index[k], vals):
             model[i] = convs[k](v)
 
@@ -498,7 +506,7 @@ def run(ctx, scratch):
             # hash-table size, so CPython's iteration order is not the increasing order the model uses
             ctx.margin_dropped += 1
             same = True
-        if not same:
+        if not same and k not in model_dead:
             ctx.violation(site, 'implementation differs from the model (%s)' % fam, case=a, expected=exp, observed=got,
                           check='model', family=fam)
         if i % 1500 == 0:
